@@ -271,6 +271,21 @@ func familyInputs(r *Run, n int) map[string][]byte {
 			out[fmt.Sprintf("v6-nested-%d-unknown-leaf", c.code)] = append([]byte{1, 0, 0, 1}, inner...)
 		}
 	}
+	{ // the same nests with a malformed innermost option: the decode fails only at the bottom, and the failure then
+		// travels up through every level (whatever each level adds to it on the way is paid depth times)
+		for _, c := range []struct{ code, hdr int }{{3, 12}, {25, 12}, {5, 24}} {
+			inner := []byte{0, 3, 0, 2} // an IA_NA of 2 octets: too short
+			for len(inner)+c.hdr+4 <= n-4 && len(inner)+c.hdr+4 < 65000 {
+				inner = tlvb(uint16(c.code), append(make([]byte, c.hdr), inner...))
+			}
+			out[fmt.Sprintf("v6-nested-%d-malformed-bottom", c.code)] = append([]byte{1, 0, 0, 1}, inner...)
+		}
+		rl := []byte{1, 0, 0} // a message header cut short
+		for len(rl)+38 < n && len(rl)+38 < 65000 {
+			rl = append(append([]byte{12, 0}, make([]byte, 32)...), tlvb(9, rl)...)
+		}
+		out["v6-nested-relay-malformed-bottom"] = rl
+	}
 	{ // nested relay messages
 		var inner = []byte{1, 0, 0, 1}
 		for len(inner)+38 < n && len(inner)+38 < 65000 {
